@@ -280,7 +280,9 @@ def _fix_sparse_arrays(obj: Any) -> object:
 
     if isinstance(obj, Mapping):
         if isinstance(next(iter(obj)), int):
-            return [_fix_sparse_arrays(v) for v in obj.values()]
+            # Array elements keep their relative order, whatever order they
+            # were selected in.
+            return [_fix_sparse_arrays(v) for _, v in sorted(obj.items())]
         return {k: _fix_sparse_arrays(v) for k, v in obj.items()}
 
     return obj
